@@ -1,9 +1,13 @@
 package main
 
 import (
+	"bytes"
 	"context"
+	"encoding/json"
 	"fmt"
+	"math/rand"
 	"os"
+	"os/exec"
 	"path/filepath"
 	"sort"
 	"strconv"
@@ -20,9 +24,39 @@ import (
 	"verif/harness/internal/hx"
 )
 
+// Every stress run of the synclock driver executes in a re-executed copy of this binary.  A runtime
+// whose sync lock is released once too often dies with an unrecoverable "fatal error: sync: RUnlock of
+// unlocked RWMutex"; in a child process that is an OBSERVATION of the run (reported as a failure of
+// the property's oracle by the parent), not the end of the driver.
+const syncLockHelperArg = "-synclock-helper"
+
+// Bounds.  A run takes a few hundred milliseconds.
+const (
+	slRunBound   = 120 * time.Second // a run that is not over by then is dumped as it stands (an observation)
+	slChildBound = 300 * time.Second // the parent kills a child that did not even dump (machinery failure)
+	slProbeGrace = 100 * time.Millisecond
+	slMaxFailing = 5 // failing runs after which the stream stops: the verdict is settled
+)
+
+// what the parent asks of one run
+type slSpec struct {
+	Dir     string `json:"dir"` // scratch directory, created and removed by the parent
+	R       int    `json:"r"`
+	P       int    `json:"p"`
+	N       int    `json:"n"`
+	Starts  []int  `json:"starts"`
+	DblSeed int64  `json:"dbl_seed"` // PRNG of the choice which blocks are released twice
+	Probe   bool   `json:"probe"`    // start with the two-blocks-one-released-twice scenario
+}
+
+type slResult struct {
+	Case *slCase `json:"case,omitempty"`
+	Err  string  `json:"err,omitempty"` // failure of the machinery inside the run
+}
+
 // one entry of the API-level log (Model/SyncLock.v: lev)
 type logEv struct {
-	Kind string   `json:"k"` // acq rel recv ret store enter srecv sret
+	Kind string   `json:"k"` // acq rel rel2 recv ret store enter srecv sret
 	G    string   `json:"g,omitempty"`
 	P    string   `json:"p,omitempty"` // plugin name, or (enter/sret, before resolution) the sync session
 	C    string   `json:"c,omitempty"`
@@ -43,22 +77,51 @@ type slPlugin struct {
 }
 
 type slRun struct {
-	a      *adaptation.Adaptation
-	mu     sync.Mutex // protects log, store, every plugin's records: one linearisation
-	log    []logEv
-	store  []string
-	sess   int
-	held   int32 // sync blocks currently held (between "acquired" and "released" log entries)
-	inSync int32 // SyncFn invocations in progress
-	viol   []string
-	rets   int32 // SyncFn returns
+	a       *adaptation.Adaptation
+	spec    slSpec
+	out     string
+	plugins []*slPlugin
+
+	mu    sync.Mutex // protects log, store, every plugin's records: one linearisation
+	log   []logEv
+	store []string
+	sess  int
+	viol  []string
+
+	// held: sync blocks currently held = between the "acquired" log entry and the "released" log entry
+	// of the block's FIRST Unblock.  A repeated Unblock of a released block does not touch it.
+	held       int32
+	inSync     int32 // SyncFn invocations in progress
+	rets       int32 // SyncFn returns
+	total      int32 // containers created so far
+	twice      int32 // blocks released a second time
+	twiceOther int32 // ... while another block was held
+	abandon    int32 // a violation was seen: no further Unblock is issued, the run is dumped as it stands
+	once       sync.Once
+	herr       atomic.Value
 }
 
+// violation records a failure of the oracle and freezes the run: from now on no goroutine calls
+// Unblock any more (on a runtime whose lock count is off that would be fatal), and the watchdog
+// writes out the log as it stands.
 func (r *slRun) violation(format string, args ...interface{}) {
 	r.mu.Lock()
 	if len(r.viol) < 10 {
 		r.viol = append(r.viol, fmt.Sprintf(format, args...))
 	}
+	r.mu.Unlock()
+	atomic.StoreInt32(&r.abandon, 1)
+}
+
+func (r *slRun) parkIfAbandoned() {
+	if atomic.LoadInt32(&r.abandon) != 0 {
+		select {}
+	}
+}
+
+func (r *slRun) logEv(e logEv) {
+	r.mu.Lock()
+	r.log = append(r.log, e)
 	r.mu.Unlock()
 }
 
@@ -133,11 +196,17 @@ func (p *slPlugin) CreateContainer(_ context.Context, _ *api.PodSandbox, c *api.
 func (p *slPlugin) StartContainer(context.Context, *api.PodSandbox, *api.Container) error { return nil }
 
 type slCase struct {
-	Trace   []logEv     `json:"trace"`
-	Store   []string    `json:"store"`
-	Plugins []slPlugObs `json:"plugins"`
-	Viol    []string    `json:"violations,omitempty"`
-	R, P, N int
+	Trace     []logEv     `json:"trace"`
+	Store     []string    `json:"store"`
+	Plugins   []slPlugObs `json:"plugins"`
+	Viol      []string    `json:"violations,omitempty"`
+	Abandoned bool        `json:"abandoned,omitempty"` // frozen after a violation and dumped as it stood
+	Crash     string      `json:"crash,omitempty"`     // the runtime died inside the sync lock (no log survives)
+	Probe     bool        `json:"probe,omitempty"`
+	Twice     int         `json:"released_twice"`
+	TwiceOth  int         `json:"released_twice_while_another_block_held"`
+	Spec      *slSpec     `json:"spec,omitempty"`
+	R, P, N   int
 }
 
 type slPlugObs struct {
@@ -153,6 +222,8 @@ func (e logEv) coq() string {
 		return "LBlockAcq " + coqfmt.Str(e.G)
 	case "rel":
 		return "LBlockRel " + coqfmt.Str(e.G)
+	case "rel2":
+		return "LBlockRelAgain " + coqfmt.Str(e.G)
 	case "recv":
 		return fmt.Sprintf("LRecv %s %s %s", coqfmt.Str(e.G), coqfmt.Str(e.P), coqfmt.Str(e.C))
 	case "ret":
@@ -169,17 +240,176 @@ func (e logEv) coq() string {
 	panic("unknown log event " + e.Kind)
 }
 
-// oneSyncLockRun: R goroutines x N creations inside sync blocks, P stubs registering at points of the
-// creation stream chosen by the PRNG, one noise goroutine.
-func oneSyncLockRun(c *hx.Ctx, R, P, N int, starts []int) (*slCase, error) {
-	dir, err := scratch("sl")
-	if err != nil {
-		return nil, err
+// ---------------------------------------------------------------- the runtime's use of the API, logged
+
+var slPod = &api.PodSandbox{Id: "pod0", Name: "pod0", Namespace: "default"}
+
+// acquire: "block acquired" is logged after BlockPluginSync returned.
+func (r *slRun) acquire(gn string) *adaptation.PluginSyncBlock {
+	r.parkIfAbandoned()
+	b := r.a.BlockPluginSync()
+	atomic.AddInt32(&r.held, 1)
+	if atomic.LoadInt32(&r.inSync) != 0 {
+		r.violation("sync block acquired by %s while SyncFn in progress", gn)
 	}
-	defer os.RemoveAll(dir)
-	sock := filepath.Join(dir, "nri.sock")
-	r := &slRun{}
-	a, err := newAdaptation(dir, sock, r.syncFn)
+	r.logEv(logEv{Kind: "acq", G: gn})
+	return b
+}
+
+func (r *slRun) create(gn, id string) {
+	_, err := r.a.CreateContainer(context.Background(), &api.CreateContainerRequest{Pod: slPod,
+		Container: &api.Container{Id: id, PodSandboxId: slPod.Id, Name: id}})
+	r.logEv(logEv{Kind: "ret", G: gn, C: id})
+	if err != nil {
+		r.herr.Store(fmt.Errorf("CreateContainer %s: %w", id, err))
+	}
+}
+
+// bookkeeping: the runtime's own store, inside the same block as the creation
+func (r *slRun) keep(gn, id string) {
+	r.mu.Lock()
+	r.store = append(r.store, id)
+	r.log = append(r.log, logEv{Kind: "store", G: gn, C: id})
+	r.mu.Unlock()
+	atomic.AddInt32(&r.total, 1)
+}
+
+// release: the FIRST Unblock of a block; "block released" is logged (and the held-block counter
+// decremented) before the call.
+func (r *slRun) release(gn string, b *adaptation.PluginSyncBlock) {
+	r.logEv(logEv{Kind: "rel", G: gn})
+	if atomic.LoadInt32(&r.inSync) != 0 {
+		r.violation("SyncFn in progress while %s still holds its sync block", gn)
+	}
+	atomic.AddInt32(&r.held, -1)
+	r.parkIfAbandoned()
+	b.Unblock()
+}
+
+// releaseAgain: a repeated Unblock of a block this goroutine already released (explicit Unblock on the
+// success path plus a deferred one: "Safe to call multiple times but only from a single goroutine").
+// It must not change anything: the held-block counter is NOT touched, whoever else holds a block
+// keeps holding it.
+func (r *slRun) releaseAgain(gn string, b *adaptation.PluginSyncBlock) {
+	r.parkIfAbandoned()
+	atomic.AddInt32(&r.twice, 1)
+	if atomic.LoadInt32(&r.held) > 0 {
+		atomic.AddInt32(&r.twiceOther, 1)
+	}
+	r.logEv(logEv{Kind: "rel2", G: gn})
+	b.Unblock()
+}
+
+// createInBlock is one creation with its bookkeeping inside a sync block.
+func (r *slRun) createInBlock(gn, id string, twice bool) {
+	b := r.acquire(gn)
+	if twice {
+		defer r.releaseAgain(gn, b)
+	}
+	r.create(gn, id)
+	r.keep(gn, id)
+	r.release(gn, b)
+}
+
+// probe: two blocks are held, a plugin is waiting to be synchronised, the first block is released
+// TWICE while the second is in the middle of a creation (request relayed, bookkeeping not yet done).
+// The plugin must stay blocked until the second block is released.
+func (r *slRun) probe(startPlugin func(j int) chan error) {
+	ba := r.acquire("ga")
+	bb := r.acquire("gb")
+	started := startPlugin(0)
+	// stub.Start returns once the plugin is configured: the runtime is now about to request the
+	// exclusive section (whether it has reached the lock yet does not matter for what follows)
+	select {
+	case err := <-started:
+		if err != nil {
+			r.herr.Store(fmt.Errorf("stub 0 start: %w", err))
+		}
+	case <-time.After(30 * time.Second):
+		r.violation("the plugin connecting while two sync blocks are held was not configured within 30s")
+	}
+	time.Sleep(5 * time.Millisecond)
+	r.create("gb", "gb-c0")
+	r.create("ga", "ga-c0")
+	r.keep("ga", "ga-c0")
+	r.release("ga", ba)
+	r.releaseAgain("ga", ba)
+	// gb still holds its block: a synchronisation entered now is flagged by syncFn
+	for t0 := time.Now(); time.Since(t0) < slProbeGrace; time.Sleep(time.Millisecond) {
+		r.parkIfAbandoned()
+	}
+	r.keep("gb", "gb-c0")
+	r.release("gb", bb)
+}
+
+// buildCase: call with r.mu held.
+func (r *slRun) buildCase(abandoned bool) *slCase {
+	// resolve sync sessions to plugin names through what the plugins received
+	sessName := map[int]string{}
+	for _, p := range r.plugins {
+		if p.sess >= 0 {
+			sessName[p.sess] = p.name
+		}
+	}
+	okSess := map[int]bool{}
+	cs := &slCase{Store: append([]string{}, r.store...), Viol: append([]string{}, r.viol...), R: r.spec.R, P: r.spec.P, N: r.spec.N,
+		Abandoned: abandoned, Probe: r.spec.Probe, Twice: int(atomic.LoadInt32(&r.twice)), TwiceOth: int(atomic.LoadInt32(&r.twiceOther))}
+	for _, e := range r.log {
+		switch e.Kind {
+		case "enter", "sret":
+			n, ok := sessName[e.sess]
+			if !ok {
+				n = "?" + strconv.Itoa(e.sess)
+			}
+			e.P = n
+			if e.Kind == "sret" && e.OK {
+				okSess[e.sess] = true
+			}
+		}
+		cs.Trace = append(cs.Trace, e)
+	}
+	for _, p := range r.plugins {
+		cs.Plugins = append(cs.Plugins, slPlugObs{Name: p.name, Registered: p.sess >= 0 && okSess[p.sess],
+			Snapshot: append([]string{}, p.snapshot...), Creates: append([]string{}, p.creates...)})
+		if p.syncs > 1 || (!abandoned && p.syncs != 1) {
+			cs.Viol = append(cs.Viol, fmt.Sprintf("plugin %s was synchronized %d times", p.name, p.syncs))
+		}
+	}
+	return cs
+}
+
+func writeResult(out string, res *slResult) {
+	js, err := json.Marshal(res)
+	if err == nil {
+		err = os.WriteFile(out+".tmp", js, 0o644)
+	}
+	if err == nil {
+		err = os.Rename(out+".tmp", out)
+	}
+	if err != nil {
+		fmt.Fprintln(os.Stderr, "synclock helper:", err)
+		os.Exit(2)
+	}
+}
+
+// dumpAndExit writes the run as it stands and ends the process WITHOUT touching the Adaptation again.
+func (r *slRun) dumpAndExit() {
+	r.once.Do(func() {
+		r.mu.Lock()
+		cs := r.buildCase(true)
+		r.mu.Unlock()
+		writeResult(r.out, &slResult{Case: cs})
+	})
+	os.Exit(0)
+}
+
+// oneSyncLockRun: R goroutines x N creations inside sync blocks (some released twice), P stubs
+// registering at points of the creation stream chosen by the PRNG, one noise goroutine.
+func oneSyncLockRun(spec slSpec, out string) (*slCase, error) {
+	R, P, N, starts := spec.R, spec.P, spec.N, spec.Starts
+	sock := filepath.Join(spec.Dir, "nri.sock")
+	r := &slRun{spec: spec, out: out}
+	a, err := newAdaptation(spec.Dir, sock, r.syncFn)
 	if err != nil {
 		return nil, err
 	}
@@ -195,32 +425,48 @@ func oneSyncLockRun(c *hx.Ctx, R, P, N int, starts []int) (*slCase, error) {
 	r.mu.Unlock()
 	base := atomic.LoadInt32(&r.rets)
 
+	// watchdog: after a violation, or when the run does not end, the log is written out as it stands
+	go func() {
+		t0 := time.Now()
+		for {
+			time.Sleep(2 * time.Millisecond)
+			if atomic.LoadInt32(&r.abandon) != 0 {
+				// let a synchronisation in progress return, so that the log shows it whole
+				for dl := time.Now().Add(3 * time.Second); atomic.LoadInt32(&r.inSync) != 0 && time.Now().Before(dl); {
+					time.Sleep(time.Millisecond)
+				}
+				time.Sleep(20 * time.Millisecond)
+				r.dumpAndExit()
+			}
+			if time.Since(t0) > slRunBound {
+				r.violation("the run was not over after %v: %d of %d registrations synchronized, %d sync block(s) held",
+					slRunBound, atomic.LoadInt32(&r.rets)-base, P, atomic.LoadInt32(&r.held))
+			}
+		}
+	}()
+
 	ctx := context.Background()
-	pod := &api.PodSandbox{Id: "pod0", Name: "pod0", Namespace: "default"}
-	total := int32(0)
 	stop := make(chan struct{})
 	var wg, nwg sync.WaitGroup
-	var herr atomic.Value
 
 	// noise
 	nwg.Add(1)
 	go func() {
 		defer nwg.Done()
-		ctr := &api.Container{Id: "noise", PodSandboxId: pod.Id, Name: "noise"}
+		ctr := &api.Container{Id: "noise", PodSandboxId: slPod.Id, Name: "noise"}
 		for {
 			select {
 			case <-stop:
 				return
 			default:
 			}
-			a.StartContainer(ctx, &api.StateChangeEvent{Pod: pod, Container: ctr})
+			a.StartContainer(ctx, &api.StateChangeEvent{Pod: slPod, Container: ctr})
 			time.Sleep(20 * time.Microsecond)
 		}
 	}()
 
 	// plugins
-	plugins := make([]*slPlugin, P)
-	var pwg sync.WaitGroup
+	r.plugins = make([]*slPlugin, P)
 	for j := 0; j < P; j++ {
 		p := &slPlugin{run: r, name: fmt.Sprintf("%02d-p%d", (j*37)%100, j), sess: -1}
 		st, err := stub.New(p, stub.WithPluginName(fmt.Sprintf("p%d", j)), stub.WithPluginIdx(fmt.Sprintf("%02d", (j*37)%100)),
@@ -229,15 +475,28 @@ func oneSyncLockRun(c *hx.Ctx, R, P, N int, starts []int) (*slCase, error) {
 			return nil, err
 		}
 		p.stub = st
-		plugins[j] = p
+		r.plugins[j] = p
+	}
+	startPlugin := func(j int) chan error {
+		ch := make(chan error, 1)
+		go func() { ch <- r.plugins[j].stub.Start(ctx) }()
+		return ch
+	}
+	first := 0
+	if spec.Probe {
+		r.probe(startPlugin)
+		first = 1
+	}
+	var pwg sync.WaitGroup
+	for j := first; j < P; j++ {
 		pwg.Add(1)
 		go func(j int) {
 			defer pwg.Done()
-			for atomic.LoadInt32(&total) < int32(starts[j]) {
+			for atomic.LoadInt32(&r.total) < int32(starts[j]) {
 				time.Sleep(50 * time.Microsecond)
 			}
-			if err := st.Start(ctx); err != nil {
-				herr.Store(fmt.Errorf("stub %d start: %w", j, err))
+			if err := <-startPlugin(j); err != nil {
+				r.herr.Store(fmt.Errorf("stub %d start: %w", j, err))
 			}
 		}(j)
 	}
@@ -248,39 +507,9 @@ func oneSyncLockRun(c *hx.Ctx, R, P, N int, starts []int) (*slCase, error) {
 		go func(g int) {
 			defer wg.Done()
 			gn := "g" + strconv.Itoa(g)
+			rnd := rand.New(rand.NewSource(spec.DblSeed + int64(g)*7919))
 			for i := 0; i < N; i++ {
-				b := a.BlockPluginSync()
-				atomic.AddInt32(&r.held, 1)
-				if atomic.LoadInt32(&r.inSync) != 0 {
-					r.violation("sync block acquired by %s while SyncFn in progress", gn)
-				}
-				r.mu.Lock()
-				r.log = append(r.log, logEv{Kind: "acq", G: gn})
-				r.mu.Unlock()
-
-				id := gn + "-c" + strconv.Itoa(i)
-				_, err := a.CreateContainer(ctx, &api.CreateContainerRequest{Pod: pod,
-					Container: &api.Container{Id: id, PodSandboxId: pod.Id, Name: id}})
-				r.mu.Lock()
-				r.log = append(r.log, logEv{Kind: "ret", G: gn, C: id})
-				r.mu.Unlock()
-				if err != nil {
-					herr.Store(fmt.Errorf("CreateContainer %s: %w", id, err))
-				}
-				r.mu.Lock()
-				r.store = append(r.store, id)
-				r.log = append(r.log, logEv{Kind: "store", G: gn, C: id})
-				r.mu.Unlock()
-				atomic.AddInt32(&total, 1)
-
-				r.mu.Lock()
-				r.log = append(r.log, logEv{Kind: "rel", G: gn})
-				r.mu.Unlock()
-				if atomic.LoadInt32(&r.inSync) != 0 {
-					r.violation("SyncFn in progress while %s still holds its sync block", gn)
-				}
-				atomic.AddInt32(&r.held, -1)
-				b.Unblock()
+				r.createInBlock(gn, gn+"-c"+strconv.Itoa(i), rnd.Intn(100) < 45)
 				if i%3 == g%3 {
 					time.Sleep(time.Duration(30*(g+1)) * time.Microsecond)
 				}
@@ -289,85 +518,115 @@ func oneSyncLockRun(c *hx.Ctx, R, P, N int, starts []int) (*slCase, error) {
 	}
 	wg.Wait()
 	pwg.Wait()
-	// every registration has been through SyncFn; then one more block: acquired only after the last
-	// finishedPluginSync, i.e. after the last activation
+	// every block is released: pending registrations complete.  Then one more block: acquired only after
+	// the last finishedPluginSync, i.e. after the last activation
 	deadline := time.Now().Add(60 * time.Second)
 	for atomic.LoadInt32(&r.rets)-base < int32(P) && time.Now().Before(deadline) {
 		time.Sleep(200 * time.Microsecond)
 	}
 	if got := atomic.LoadInt32(&r.rets) - base; got < int32(P) {
-		herr.Store(fmt.Errorf("only %d of %d registrations reached SyncFn within 60s", got, P))
+		r.violation("only %d of %d registrations were synchronized within 60s of the last sync block being released", got, P)
+		select {} // the watchdog writes the run out
 	}
+	r.parkIfAbandoned()
 	a.BlockPluginSync().Unblock()
 	// a tail of creations that every registered plugin must see as requests
 	for i := 0; i < 2; i++ {
-		b := a.BlockPluginSync()
-		atomic.AddInt32(&r.held, 1)
-		r.mu.Lock()
-		r.log = append(r.log, logEv{Kind: "acq", G: "gt"})
-		r.mu.Unlock()
-		id := "gt-c" + strconv.Itoa(i)
-		_, err := a.CreateContainer(ctx, &api.CreateContainerRequest{Pod: pod,
-			Container: &api.Container{Id: id, PodSandboxId: pod.Id, Name: id}})
-		if err != nil {
-			herr.Store(fmt.Errorf("CreateContainer %s: %w", id, err))
-		}
-		r.mu.Lock()
-		r.log = append(r.log, logEv{Kind: "ret", G: "gt", C: id})
-		r.store = append(r.store, id)
-		r.log = append(r.log, logEv{Kind: "store", G: "gt", C: id})
-		r.log = append(r.log, logEv{Kind: "rel", G: "gt"})
-		r.mu.Unlock()
-		atomic.AddInt32(&r.held, -1)
-		b.Unblock()
+		r.createInBlock("gt", "gt-c"+strconv.Itoa(i), i == 1)
 	}
 	close(stop)
 	nwg.Wait()
-	for _, p := range plugins {
+	for _, p := range r.plugins {
 		if atomic.LoadInt32(&p.closed) != 0 {
-			herr.Store(fmt.Errorf("plugin %s lost its connection during the run", p.name))
+			r.herr.Store(fmt.Errorf("plugin %s lost its connection during the run", p.name))
 		}
 	}
-	if e := herr.Load(); e != nil {
+	r.parkIfAbandoned()
+	if e := r.herr.Load(); e != nil {
 		return nil, e.(error)
 	}
-
 	r.mu.Lock()
-	defer r.mu.Unlock()
-	// resolve sync sessions to plugin names through what the plugins received
-	sessName := map[int]string{}
-	for _, p := range plugins {
-		if p.sess >= 0 {
-			sessName[p.sess] = p.name
-		}
-	}
-	okSess := map[int]bool{}
-	cs := &slCase{Store: append([]string{}, r.store...), Viol: r.viol, R: R, P: P, N: N}
-	for _, e := range r.log {
-		switch e.Kind {
-		case "enter", "sret":
-			n, ok := sessName[e.sess]
-			if !ok {
-				n = "?" + strconv.Itoa(e.sess)
-			}
-			e.P = n
-			if e.Kind == "sret" && e.OK {
-				okSess[e.sess] = true
-			}
-		}
-		cs.Trace = append(cs.Trace, e)
-	}
-	for _, p := range plugins {
-		cs.Plugins = append(cs.Plugins, slPlugObs{Name: p.name, Registered: p.sess >= 0 && okSess[p.sess],
-			Snapshot: append([]string{}, p.snapshot...), Creates: append([]string{}, p.creates...)})
-		if p.syncs != 1 {
-			cs.Viol = append(cs.Viol, fmt.Sprintf("plugin %s was synchronized %d times", p.name, p.syncs))
-		}
-	}
-	for _, p := range plugins {
+	cs := r.buildCase(false)
+	r.mu.Unlock()
+	for _, p := range r.plugins {
 		p.stub.Stop()
 	}
 	return cs, nil
+}
+
+// syncLockHelper runs in the re-executed copy: SPEC OUT
+func syncLockHelper(args []string) int {
+	if len(args) != 2 {
+		return 2
+	}
+	js, err := os.ReadFile(args[0])
+	if err != nil {
+		fmt.Fprintln(os.Stderr, err)
+		return 2
+	}
+	var spec slSpec
+	if err := json.Unmarshal(js, &spec); err != nil {
+		fmt.Fprintln(os.Stderr, err)
+		return 2
+	}
+	adaptation.SetPluginRegistrationTimeout(60 * time.Second)
+	adaptation.SetPluginRequestTimeout(60 * time.Second)
+	cs, err := oneSyncLockRun(spec, args[1])
+	res := &slResult{Case: cs}
+	if err != nil {
+		res = &slResult{Err: err.Error()}
+	}
+	writeResult(args[1], res)
+	return 0
+}
+
+// runSyncLockChild executes one run in a child process and interprets how it ended.
+func runSyncLockChild(c *hx.Ctx, exe string, i int, spec slSpec) (*slCase, error) {
+	dir, err := scratch("sl")
+	if err != nil {
+		return nil, err
+	}
+	defer os.RemoveAll(dir)
+	spec.Dir = dir
+	specFile, outFile := filepath.Join(dir, "spec.json"), filepath.Join(dir, "result.json")
+	js, _ := json.Marshal(spec)
+	if err := os.WriteFile(specFile, js, 0o644); err != nil {
+		return nil, err
+	}
+	ctx, cancel := context.WithTimeout(context.Background(), slChildBound)
+	defer cancel()
+	cmd := exec.CommandContext(ctx, exe, syncLockHelperArg, specFile, outFile)
+	var errb bytes.Buffer
+	cmd.Stdout, cmd.Stderr = &errb, &errb
+	runErr := cmd.Run()
+	if res, rerr := os.ReadFile(outFile); rerr == nil && runErr == nil {
+		var r slResult
+		if err := json.Unmarshal(res, &r); err != nil {
+			return nil, err
+		}
+		if r.Err != "" {
+			return nil, fmt.Errorf("%s", r.Err)
+		}
+		if r.Case == nil {
+			return nil, fmt.Errorf("synclock helper wrote no case")
+		}
+		r.Case.Spec = &spec
+		return r.Case, nil
+	}
+	log := errb.String()
+	if k := strings.Index(log, "fatal error: sync:"); k >= 0 {
+		// the Go runtime's own check of the lock: the sync lock was unlocked more often than locked.
+		// The harness calls Unblock at most twice per block, from the goroutine that took it.
+		line := log[k:]
+		if j := strings.IndexByte(line, '\n'); j > 0 {
+			line = line[:j]
+		}
+		return &slCase{Crash: line, Spec: &spec, Probe: spec.Probe, R: spec.R, P: spec.P, N: spec.N,
+			Viol: []string{"the runtime died in the plugin sync lock (" + line + "): an Unblock released a lock its block did not hold"}}, nil
+	}
+	// anything else (including a data race report of a -race build) is passed on as it is
+	fmt.Fprintln(os.Stderr, log)
+	return nil, fmt.Errorf("synclock helper for run %d failed: %v", i, runErr)
 }
 
 // exactlyOnce is the Go twin of Spec/SyncLockSpec.v: exactly_once_b.
@@ -400,14 +659,16 @@ func exactlyOnce(cs *slCase) []string {
 }
 
 func driveSyncLock(c *hx.Ctx) error {
-	adaptation.SetPluginRegistrationTimeout(60 * time.Second)
-	adaptation.SetPluginRequestTimeout(60 * time.Second)
+	exe, err := os.Executable()
+	if err != nil {
+		return err
+	}
 	sh := c.NewShard("synclock", "From NRI Require Import Model.SyncLock Spec.SyncLockSpec Run.Common Run.RunSyncLock.",
 		"sync_case", "corr_sync", "holds_sync", 8)
 	rnd := c.Rand("synclock")
 	runs := c.Pick(40, 400)
-	overlapped, unregistered := 0, 0
-	for i := 0; i < runs; i++ {
+	overlapped, unregistered, failing, twiceOther, probes := 0, 0, 0, 0, 0
+	for i := 0; i < runs && failing < slMaxFailing; i++ {
 		R := 2 + rnd.Intn(c.Pick(4, 8))
 		P := 1 + rnd.Intn(c.Pick(5, 9))
 		N := c.Pick(6, 12) + rnd.Intn(c.Pick(10, 24))
@@ -420,9 +681,22 @@ func driveSyncLock(c *hx.Ctx) error {
 				starts[j] = R * N / 2
 			}
 		}
-		cs, err := oneSyncLockRun(c, R, P, N, starts)
+		spec := slSpec{R: R, P: P, N: N, Starts: starts, DblSeed: rnd.Int63(), Probe: i == 0 || rnd.Intn(2) == 0}
+		cs, err := runSyncLockChild(c, exe, i, spec)
 		if err != nil {
 			return fmt.Errorf("run %d: %w", i, err)
+		}
+		c.Count("synclock.runs", 1)
+		if spec.Probe {
+			probes++
+			c.Count("synclock.runs_with_probe", 1)
+		}
+		if cs.Crash != "" {
+			failing++
+			c.Count("synclock.runs_runtime_died_in_sync_lock", 1)
+			c.Eval(fmt.Sprint("synclock/", i), false)
+			c.ImplFail("synclock", strings.Join(cs.Viol, "; "), cs)
+			continue
 		}
 		var tr []string
 		for _, e := range cs.Trace {
@@ -439,31 +713,46 @@ func driveSyncLock(c *hx.Ctx) error {
 				nontrivial = true
 				overlapped++
 			}
-			if !p.Registered {
+			if !p.Registered && !cs.Abandoned {
 				unregistered++
 			}
 		}
 		sh.Add(fmt.Sprintf("{| sc_trace := %s; sc_store := %s; sc_plugins := %s |}",
 			coqfmt.List(tr), coqfmt.StrList(cs.Store), coqfmt.List(pos)), cs)
 		c.Eval(fmt.Sprint("synclock/", i), nontrivial)
-		c.Count("synclock.runs", 1)
 		c.Count("synclock.log_events", len(cs.Trace))
 		c.Count("synclock.containers", len(cs.Store))
 		c.Count("synclock.plugins", len(cs.Plugins))
+		c.Count("synclock.blocks_released_twice", cs.Twice)
+		c.Count("synclock.blocks_released_twice_while_another_block_held", cs.TwiceOth)
+		twiceOther += cs.TwiceOth
+		if cs.Abandoned {
+			c.Count("synclock.runs_frozen_after_violation", 1)
+		}
 		if bad := exactlyOnce(cs); len(bad) > 0 || len(cs.Viol) > 0 {
+			failing++
 			c.ImplFail("synclock", strings.Join(append(bad, cs.Viol...), "; "), cs)
 		}
 		if i < 2 {
-			c.Sample(map[string]interface{}{"R": R, "P": P, "N": N, "log_events": len(cs.Trace), "plugins": cs.Plugins[:1]}, 4)
+			c.Sample(map[string]interface{}{"R": R, "P": P, "N": N, "probe": spec.Probe, "log_events": len(cs.Trace),
+				"released_twice": cs.Twice, "released_twice_while_another_block_held": cs.TwiceOth, "plugins": cs.Plugins[:1]}, 4)
 		}
 	}
 	c.Count("synclock.plugins_registered_mid_stream", overlapped)
-	if overlapped == 0 {
-		c.HarnessError("synclock: no plugin registered while containers were being created")
+	// target shapes of the stream — judged only when no run failed (a failing run is the result then)
+	if failing == 0 {
+		if overlapped == 0 {
+			c.HarnessError("synclock: no plugin registered while containers were being created")
+		}
+		if unregistered > 0 {
+			c.HarnessError("synclock: %d plugins did not complete registration", unregistered)
+		}
+		if twiceOther == 0 || probes == 0 {
+			c.HarnessError("synclock: no block was released twice while another block was held (%d), or no probe ran (%d)", twiceOther, probes)
+		}
+	} else {
+		c.Count("synclock.failing_runs", failing)
 	}
-	if unregistered > 0 {
-		c.HarnessError("synclock: %d plugins did not complete registration", unregistered)
-	}
-	c.Stats.Rule = "synclock: per run R goroutines x N CreateContainer requests inside BlockPluginSync/Unblock on one real Adaptation while P real stubs register at PRNG-chosen points of the creation stream (every 8th run: all at once) and a noise goroutine fires StartContainer outside any block; non-trivial = some plugin completed registration with a non-empty snapshot and more than two creation requests"
+	c.Stats.Rule = "synclock: every run in a child process (a runtime that dies inside its sync lock is an observation): R goroutines x N CreateContainer requests inside BlockPluginSync/Unblock on one real Adaptation while P real stubs register at PRNG-chosen points of the creation stream (every 8th run: all at once) and a noise goroutine fires StartContainer outside any block; about 45% of the blocks are released TWICE (explicit Unblock plus a deferred one, the use the doc comment allows) while the other goroutines hold theirs; the held-block counter and the log count a block as released at its first Unblock only; about half of the runs start with a probe: two blocks held, a plugin waiting, the first block released twice while the second is between relaying its creation and its bookkeeping, and must keep the plugin out for a further 100 ms; non-trivial = some plugin completed registration with a non-empty snapshot and more than two creation requests"
 	return nil
 }
